@@ -22,6 +22,21 @@ impl Default for RenderOpts {
     }
 }
 
+/// Documentation for one item, in one of the forms users write it. The form is chosen from the item's name, so a
+/// corpus contains all of them: a short line; a first line of more than 80 columns; several paragraphs; the
+/// `#[doc = ".."]` attribute; text with quotes, backslashes and braces; a block doc comment.
+pub fn doc_text(indent: &str, what: &str, name: &str) -> String {
+    let style = name.bytes().fold(name.len() as u32, |a, b| a.wrapping_mul(31).wrapping_add(b as u32)) % 7;
+    match style {
+        0 | 1 => format!("{}/// documented {}\n", indent, what),
+        2 => format!("{}/// documented {} whose first line is deliberately much longer than eighty columns, the way prose wrapped by hand or by a tool often turns out\n", indent, what),
+        3 => format!("{}/// documented {}\n{}///\n{}/// A second paragraph, with `code`, a [link](https://example.org) and a list:\n{}/// * one\n{}/// * two\n", indent, what, indent, indent, indent, indent),
+        4 => format!("{}#[doc = \"documented {} through the attribute form\"]\n", indent, what),
+        5 => format!("{}/// documented {}: quotes \"x\", a backslash \\ , braces {{}} {{0}}, a tick 'a, a hash # and r#\"raw\"#\n", indent, what),
+        _ => format!("{}/** documented {} in a block comment */\n", indent, what),
+    }
+}
+
 pub fn lit(value: u128, radix: u8, underscore: bool) -> String {
     let s = match radix {
         16 => format!("{:x}", value),
@@ -66,7 +81,7 @@ pub fn render_enum(e: &EnumDecl, o: &RenderOpts) -> String {
         Exh::Omitted => String::new(),
     };
     if o.docs {
-        s.push_str("/// documented enum\n");
+        s.push_str(&doc_text("", "enum", &e.name));
     }
     if e.args_swapped && !exh.is_empty() {
         s.push_str(&format!("#[bitbybit::bitenum({}, {})]\n", exh.trim_start_matches(", "), storage));
@@ -85,7 +100,7 @@ pub fn render_enum(e: &EnumDecl, o: &RenderOpts) -> String {
     s.push_str(&format!("{}enum {} {{\n", vis, e.name));
     for v in &e.variants {
         if o.docs {
-            s.push_str("    /// documented variant\n");
+            s.push_str(&doc_text("    ", "variant", &v.name));
         }
         match v.style {
             1 => s.push_str("    #[allow(dead_code)]\n"),
@@ -192,13 +207,13 @@ pub fn field_attr(f: &Field) -> String {
 pub fn render_field(l: &Layout, f: &Field, o: &RenderOpts) -> String {
     let mut s = String::new();
     if o.docs && !o.docs_after_attr {
-        s.push_str("    /// documented field\n");
+        s.push_str(&doc_text("    ", "field", &f.name));
     }
     s.push_str("    ");
     s.push_str(&field_attr(f));
     s.push('\n');
     if o.docs && o.docs_after_attr {
-        s.push_str("    /// documented field\n");
+        s.push_str(&doc_text("    ", "field", &f.name));
     }
     let mut t = ty_text(l, &f.ty);
     if let FieldTy::Enum { option: true, .. } = &f.ty {
@@ -234,7 +249,7 @@ pub fn render_struct(l: &Layout, o: &RenderOpts) -> String {
                 "const {}: u{} = {};\n",
                 default_const_name(l),
                 l.storage_bits(),
-                lit(d.value, if d.radix == 17 { 16 } else if d.radix == 3 { 2 } else { d.radix }, false)
+                lit(d.value, if d.radix == 17 || d.radix == 116 { 16 } else if d.radix == 3 || d.radix == 102 { 2 } else { d.radix }, false)
             ));
             args.push(format!("default{} {}", sep, default_const_name(l)));
         } else {
@@ -242,6 +257,9 @@ pub fn render_struct(l: &Layout, o: &RenderOpts) -> String {
             let text = match d.radix {
                 17 => lit(d.value, 16, true),
                 3 => lit(d.value, 2, true),
+                110 => format!("{}u{}", lit(d.value, 10, false), l.storage_bits()),
+                116 => format!("{}u{}", lit(d.value, 16, false), l.storage_bits()),
+                102 => format!("{}_u{}", lit(d.value, 2, true), l.storage_bits()),
                 r => lit(d.value, r, false),
             };
             args.push(format!("default{} {}", sep, text));
@@ -255,12 +273,29 @@ pub fn render_struct(l: &Layout, o: &RenderOpts) -> String {
         }
     }
     if o.docs {
-        s.push_str("/// documented bitfield\n");
+        s.push_str(&doc_text("", "bitfield", &format!("{}{}", l.name, l.fields.len())));
     }
     s.push_str(&format!("#[bitbybit::bitfield({})]\n", args.join(", ")));
     if !o.struct_derives.is_empty() {
         s.push_str(&o.struct_derives);
         s.push('\n');
+    }
+    {
+        // attributes of the user's own, passed through by the macro
+        let mut d: Vec<&str> = Vec::new();
+        if l.derives & 1 != 0 && l.default.is_none() {
+            d.push("Default");
+        }
+        if l.derives & 2 != 0 && !o.struct_derives.contains("PartialEq") {
+            d.push("PartialEq");
+            d.push("Eq");
+        }
+        if l.derives & 4 != 0 && !l.debug && !o.struct_derives.contains("Debug") {
+            d.push("Debug");
+        }
+        if !d.is_empty() {
+            s.push_str(&format!("#[derive({})]\n", d.join(", ")));
+        }
     }
     let vis = match (o.vis_pub, l.vis) {
         (false, _) => "",
@@ -318,6 +353,7 @@ pub fn render_layout(l: &Layout, o: &RenderOpts) -> String {
                 debug_first: false,
                 vis: 0,
                 decoys: 0,
+                derives: 0,
             };
             for line in render_struct(&d, o).lines() {
                 s.push_str("    ");
